@@ -108,6 +108,18 @@ def count_of(a, stride):
     return cnt
 
 
+def target_is_fresh(s, st, new):
+    """the store goes through this->m_ptr: it is the fresh buffer if the last value stored to this->m_ptr on this path is that buffer"""
+    last = None
+    for x in s.stores:
+        if x.base == ('arg', 0) and x.off == 8 and x.seq < st.seq:
+            last = x
+    if last is None:
+        return False
+    v = ir.strip_casts(ir.ungate(last.val), ("ptrtoint", "bitcast"))
+    return v[:2] == ('ptr', ('ret', new.n)) and (last.cond == ir.TRUE or all(l in ir.common_lits(st.cond) for l in ir.common_lits(last.cond)))
+
+
 def check_array(rep, tier):
     hs = []
     for T, M in (("float", 3), ("double", 1)) + ((("float", 1), ("double", 4)) if tier == "thorough" else ()):
@@ -135,20 +147,35 @@ def check_array(rep, tier):
             if not src_size(cnt):
                 why = "fresh buffer holds %s elements, expected source.m_size" % (ir.show(cnt)[:80] if cnt else ir.show(news[0].args[0])[:80])
         if why is None:
-            if len(cps) != 1:
-                why = "%d block copies, expected exactly one memcpy from the source's buffer" % len(cps)
-            else:
-                st = cps[0]
+            if not cps:
+                why = "no block copy from the source's buffer"
+            for st in cps:
                 srcp = st.val[1]
                 n = st.size if isinstance(st.size, tuple) else ('ci', st.size, 64)
                 ncnt = count_of(n, stride)
                 via_member = st.base[0] == 'mem' and st.base[1][0] == 'ld' and st.base[1][1] == ('arg', 0) and st.base[1][2] == 8
-                if (st.base != ('ret', news[0].n) and not via_member) or st.off != 0:
-                    why = "the copy does not target the start of the fresh buffer"
-                elif not (srcp[0] == 'ptr' and srcp[1][0] == 'mem' and srcp[1][1][0] == 'ld' and srcp[1][1][1] == ('arg', 1) and srcp[1][1][2] == 8 and srcp[2] == 0):
+                lits = ir.common_lits(st.cond)
+                if st.base == ('ret', news[0].n) or (via_member and kind == "copy-assign" and ir.restrict(st.cond, news[0].cond, True) != ir.FALSE and
+                                                      any(l in ir.common_lits(news[0].cond) or True for l in [0]) and target_is_fresh(s, st, news[0])):
+                    pass
+                elif via_member:
+                    # copying into the buffer the target already owns is only sound if that buffer exists and has the right size
+                    has_null_guard = any(l[0] == 'not' and l[1][0] == 'cmp' and l[1][1] == 'eq' and ('ptr', ('null',), 0) in (l[1][2], l[1][3]) and
+                                         any(x[0] == 'ld' and x[1] == ('arg', 0) and x[2] == 8 for x in (l[1][2], l[1][3])) for l in lits)
+                    has_size_guard = any((l[0] == 'cmp' and l[1] == 'eq') and any(x[0] == 'ld' and x[1] == ('arg', 0) and x[2] == 0 for x in (l[2], l[3])) and
+                                         any(x[0] == 'ld' and x[1] == ('arg', 1) and x[2] == 0 for x in (l[2], l[3])) for l in lits)
+                    if not (has_null_guard and has_size_guard):
+                        why = "the source is copied into the buffer the target already holds without checking that this buffer exists and has source.m_size elements (a moved-from or differently sized target is corrupted)"
+                else:
+                    why = "the copy targets %s, neither the fresh buffer nor the target's own buffer" % ir.show(st.base)[:60]
+                if why is None and st.off != 0:
+                    why = "the copy does not start at the beginning of the buffer"
+                if why is None and not (srcp[0] == 'ptr' and srcp[1][0] == 'mem' and srcp[1][1][0] == 'ld' and srcp[1][1][1] == ('arg', 1) and srcp[1][1][2] == 8 and srcp[2] == 0):
                     why = "the copy reads from %s, expected the source's buffer" % ir.show(srcp)[:80]
-                elif not src_size(ncnt):
+                if why is None and not src_size(ncnt):
                     why = "the copy transfers %s bytes, expected source.m_size * %d" % (ir.show(n)[:80], stride)
+                if why:
+                    break
         if why is None:
             fin = {}
             for st in s.stores:
@@ -226,6 +253,7 @@ def run(rep, tier):
     for r in ("C05.f", "C05.a", "C05.cuda"):
         rep.rules.pop(r, None)
     c05.run_conversions(rep, "quick")
+    c05.run_rvalue(rep, "quick")
     return hs
 
 
